@@ -84,7 +84,10 @@ func c04R1(c *Ctx) {
 		case isConstIntV(leader)(st.Val):
 			kinds["leader"]++
 			c.check(nonNil, "escapeData/leader@entry", c.ipos(st), "the leader is emitted on the has-entry edge", "leader emitted without a table entry")
-		case func() bool { u, ok := st.Val.(*ssa.UnOp); return ok && u.Op == token.MUL && entry != nil && u.X == entry }():
+		case func() bool {
+			u, ok := st.Val.(*ssa.UnOp)
+			return ok && u.Op == token.MUL && entry != nil && u.X == entry
+		}():
 			kinds["code"]++
 			c.check(nonNil, "escapeData/code@entry", c.ipos(st), "the entry's code follows the leader", "code emitted without a non-nil entry")
 		default:
@@ -120,33 +123,40 @@ func c04R2(c *Ctx) {
 		if i == nil {
 			continue
 		}
-		op, x, y, ok := cmpFact(normFact(fact{V: i.Cond, Pol: true}))
-		if !ok || op != token.EQL {
+		op, x0, y0, ok := cmpFact(normFact(fact{V: i.Cond, Pol: true}))
+		if !ok || (op != token.EQL && op != token.NEQ) || b.Succs[0] == b.Succs[1] {
 			continue
 		}
-		// i == size-1 under data[i] == leader
-		if bo, isB := strip(y).(*ssa.BinOp); isB && bo.Op == token.SUB && isConstIntV(1)(bo.Y) {
-			onLeader := factCmp(factsAt(b), token.EQL, anyValue, isConstIntV(leader))
-			// the true edge returns data[i:] as second result, without error
-			okRet := false
-			for _, in := range b.Succs[0].Instrs {
-				if r, isR := in.(*ssa.Return); isR && len(r.Results) == 3 && isNilConst(r.Results[2]) {
-					if sl, isS := strip(r.Results[1]).(*ssa.Slice); isS && isVar("data")(sl.X) && sl.Low != nil && sameValue(sl.Low, x) && sl.High == nil {
-						okRet = true
+		eqSucc := b.Succs[0] // the edge taken when the two sides are equal, however the test is written
+		if op == token.NEQ {
+			eqSucc = b.Succs[1]
+		}
+		for _, pair := range [][2]ssa.Value{{x0, y0}, {y0, x0}} {
+			x, y := pair[0], pair[1]
+			// i == size-1 under data[i] == leader
+			if bo, isB := strip(y).(*ssa.BinOp); isB && bo.Op == token.SUB && isConstIntV(1)(bo.Y) {
+				onLeader := factCmp(factsAt(b), token.EQL, anyValue, isConstIntV(leader))
+				// the true edge returns data[i:] as second result, without error
+				okRet := false
+				for _, in := range eqSucc.Instrs {
+					if r, isR := in.(*ssa.Return); isR && len(r.Results) == 3 && isNilConst(r.Results[2]) {
+						if sl, isS := strip(r.Results[1]).(*ssa.Slice); isS && isVar("data")(sl.X) && sl.Low != nil && sameValue(sl.Low, x) && sl.High == nil {
+							okRet = true
+						}
 					}
 				}
+				if onLeader && okRet {
+					lone = true
+				}
 			}
-			if onLeader && okRet {
-				lone = true
-			}
-		}
-		// idx == len(buf): return data[i+1:]
-		if lc, _ := callOf(y); lc != nil && calleeID(&lc.Call) == "builtin len" {
-			for _, in := range b.Succs[0].Instrs {
-				if r, isR := in.(*ssa.Return); isR && len(r.Results) == 3 && isNilConst(r.Results[2]) {
-					if sl, isS := strip(r.Results[1]).(*ssa.Slice); isS && isVar("data")(sl.X) && sl.Low != nil {
-						if bo, isB := sl.Low.(*ssa.BinOp); isB && bo.Op == token.ADD && isConstIntV(1)(bo.Y) {
-							full = true
+			// idx == len(buf): return data[i+1:]
+			if lc, _ := callOf(y); lc != nil && calleeID(&lc.Call) == "builtin len" {
+				for _, in := range eqSucc.Instrs {
+					if r, isR := in.(*ssa.Return); isR && len(r.Results) == 3 && isNilConst(r.Results[2]) {
+						if sl, isS := strip(r.Results[1]).(*ssa.Slice); isS && isVar("data")(sl.X) && sl.Low != nil {
+							if bo, isB := sl.Low.(*ssa.BinOp); isB && bo.Op == token.ADD && isConstIntV(1)(bo.Y) {
+								full = true
+							}
 						}
 					}
 				}
@@ -603,7 +613,10 @@ func classifyPayload(c *Ctx, f *ssa.Function, v ssa.Value) string {
 			cls = "a constant protocol fragment"
 		case isFieldLoad("Newline")(l.V):
 			cls = "the negotiated newline"
-		case func() bool { p, ok := l.V.(*ssa.Parameter); return ok && (paramName(p) == "buffer" || paramName(p) == "buf") }():
+		case func() bool {
+			p, ok := l.V.(*ssa.Parameter)
+			return ok && (paramName(p) == "buffer" || paramName(p) == "buf")
+		}():
 			// sendDataV2(buffer): produced by the framer / split of framer data — traced by C01-R1's placement
 			cls = "framer output handed in by the send stage"
 		default:
